@@ -150,10 +150,11 @@ def do_stream(c, k):
         cr.compute_batch_ranking = orig
         os.chdir(cwd)
     inv = 0
-    for m in logger.msgs:
-        mm = re.match(r"Detected (\d+) invalid lines", m)
+    for m in logger.msgs:                       # "Detected N invalid lines. ..." (tolerant of rewording)
+        mm = re.search(r"(\d+)\s+invalid", m, re.I) or (re.search(r"(\d+)", m) if re.search("invalid", m, re.I) else None)
         if mm:
             inv = int(mm.group(1))
+            break
     out["batches"] = batches
     out["invalid"] = inv
     shutil.rmtree(d, ignore_errors=True)
